@@ -162,3 +162,5 @@ def generate(repo, files, report):
     targets_cli.generate(repo, files, report)
     import targets_io
     targets_io.generate(repo, files, report)
+    import targets_caps
+    targets_caps.generate(repo, files, report)
